@@ -119,9 +119,8 @@ func main() {
 		var got []string
 		for _, l := range h.O.Cmd(`LSUB "" "*"`).Untagged {
 			if strings.HasPrefix(l, "* LSUB") && !strings.Contains(l, `\Noselect`) {
-				i := strings.Index(l, `"/" `)
-				if i >= 0 {
-					got = append(got, strings.Trim(strings.TrimSpace(l[i+4:]), `"`))
+				if strings.Contains(l, `"/" `) {
+					got = append(got, world.ListName(l))
 				}
 			}
 		}
@@ -179,9 +178,8 @@ func main() {
 func listNames(c *world.Client) []string {
 	var o []string
 	for _, l := range c.Cmd(`LIST "" "*"`).Untagged {
-		i := strings.Index(l, `"/" `)
-		if i >= 0 {
-			o = append(o, strings.Trim(strings.TrimSpace(l[i+4:]), `"`))
+		if strings.Contains(l, `"/" `) {
+			o = append(o, world.ListName(l))
 		}
 	}
 	return o
